@@ -578,7 +578,8 @@ func F(m *traits.ElectricMode, t time.Time, assumeStart time.Time) (float32, boo
 
 func modes(s *hx.Seq) {
 	ls := lists(2)
-	starts := []*timestamppb.Timestamp{nil, timestamppb.New(t0), timestamppb.New(t0.Add(time.Second))}
+	// (the last one carries a fraction of a second: shifted by another fraction, the nanoseconds carry into the seconds)
+	starts := []*timestamppb.Timestamp{nil, timestamppb.New(t0), timestamppb.New(t0.Add(time.Second)), timestamppb.New(t0.Add(700 * time.Millisecond))}
 	for _, spec := range ls {
 		if !s.Own() {
 			continue
@@ -612,7 +613,11 @@ func modes(s *hx.Seq) {
 					if orig.StartTime != nil {
 						start = orig.StartTime.AsTime()
 					}
-					for _, off := range samples(tot) {
+					offs := samples(tot)
+					if !t.Before(start) {
+						offs = append(offs, t.Sub(start)) // the segment active at t itself, wherever the grid falls
+					}
+					for _, off := range offs {
 						if start.Add(off).Before(t) {
 							continue
 						}
@@ -655,8 +660,11 @@ func modes(s *hx.Seq) {
 				}
 			}
 			// Shift
+			shifts := []time.Duration{500 * time.Millisecond, -500 * time.Millisecond, 1300 * time.Millisecond}
 			for dd := -3; dd <= 3; dd++ {
-				d := time.Duration(dd) * time.Second
+				shifts = append(shifts, time.Duration(dd)*time.Second)
+			}
+			for dd, d := range shifts {
 				s.Eval(1)
 				s.Trans(1)
 				var sh *traits.ElectricMode
